@@ -33,6 +33,8 @@ MUTANTS = [
   dict(id="mut:row-guard-removed", subs=[sub("constraint.py", "    wp.atomic_add(ne_out, worldid, 1)\n    efcid = wp.atomic_add(nefc_out, worldid, 1)\n\n    if efcid >= njmax_in:\n      return\n", "    wp.atomic_add(ne_out, worldid, 1)\n    efcid = wp.atomic_add(nefc_out, worldid, 1)\n", nth=0)], fire=["C16", "C17"]),
   # ---- R-LIVE
   dict(id="mut:accumulator-not-cleared", subs=[sub("forward.py", "  # TODO(team): optimize performance\n  d.qfrc_actuator.zero_()\n", "")], fire=["C12"]),
+  dict(id="mut:row-counters-not-zeroed", subs=[sub("constraint.py", "  wp.launch(\n    _zero_constraint_counts,\n    dim=d.nworld,\n    inputs=[d.ne, d.nf, d.nl, d.nefc, d.efc.jtdaj_nblock, efc_nnz],\n  )\n", "")], fire=["C12"]),
+  dict(id="mut:subtree-com-not-initialised", subs=[sub("smooth.py", "subtree_com_out[worldid, bodyid] = ", "subtree_com_out[worldid, bodyid] += ", nth=0)], fire=["C12"]),
   # ---- R-RESET
   dict(id="mut:reset-drops-warmstart", subs=[sub("io.py", "        qacc_warmstart_out[worldid, i] = 0.0\n", "")], fire=["C13"]),
   # ---- R-LAYOUT
